@@ -12,13 +12,19 @@ LEVEL = 'proof'
 BUDGET = {'quick': 175, 'thorough': 1700}
 RULE = ('random HISTORIES of public Array operations (<=10 steps quick, <=25 thorough; ~50 operations incl. in-place '
         'methods, shallow copies followed by in-place calls, element assignment, label-transposed additions, pipes, '
-        'contractions, argument errors) on 1-3 generated tensors sharing a pool of legs: 0-3 charges with mod 1..5, both '
+        'contractions, argument errors; plus FACTORIZATIONS svd (cutoff / qtotal_LR / inner_qconj) / qr / lq / pinv / eigh / '
+        'eig / expm as oracle-only steps whose factors stay in the history, most of them inside multi-step plans '
+        '[combine_legs to a matrix] -> itranspose/iswapaxes/transpose/permute (block list left unsorted) -> factorization '
+        '-> isort_qdata / addition with a full tensor / contraction of the factors / split_legs on a factor) on 1-3 '
+        'generated tensors sharing a pool of legs: 0-3 charges with mod 1..5, both '
         'qconj, blocked / sorted-with-duplicates / arbitrary legs, zero-size blocks (8%), missing blocks, stored all-zero '
         'blocks, rows in arbitrary order, qtotal != 0, dtypes float64/complex128/int64/float32/complex64, integer '
         'entries. After EVERY step a model-free oracle inspects every live tensor (test_sanity at level 0, recomputed '
         'lexsort / is_sorted / is_bunched / is_blocked vs flags, distinct rows, block shapes, dtypes, charge rule and '
-        'documented qtotal function with python ints, dense result for additions/contractions); each history is re-run '
-        'at optimisation level 3 and must give identical dense tensors. Every step is also evaluated by the Lean '
+        'documented qtotal function with python ints, dense result for additions/contractions; for factorizations the documented '
+        'contract: legs of the factors, contractible inner legs, qtotals add up to qtotal, product of the factors); each history is re-run '
+        'at optimisation level 3 and must give identical dense tensors (exact before the first factorization of a '
+        'history, relative 1e-8 after it). Every step except factorizations / inner / advanced indexing is also evaluated by the Lean '
         'structure model on the real input structure and the stored rows (in stored order), flags, legs, pipes and '
         'qtotal are compared exactly; both kernel configurations. Non-trivial: >=3 successful steps and a tensor with '
         '>=2 stored blocks; distinct by content hash of (init, steps).')
@@ -33,6 +39,7 @@ ASSUMPTIONS = ['leg-level operations (sort, bunch, project, extend, LegPipe cons
                'int64 arithmetic does not overflow for the generated sizes']
 
 ADD_OPS = {'iadd', 'add', 'sub', 'iadd_op', 'isub_op'}
+FACT_OPS = {'svd', 'qr', 'lq', 'eigh', 'eig', 'expm', 'pinv'}
 CORPUS = []
 
 
@@ -124,6 +131,8 @@ def evaluate(ctx, cases, use_model=True, configs=('cy', 'py'), nproc=None):
                 for st, tr in zip(r['steps'], r['trace']):
                     res.count('op=' + st['op'])
                     res.count('status=' + tr['status'])
+                    if tr.get('cov'):
+                        res.count(f'{"svd" if st["op"] in ("svd", "pinv") else "other-factorization"}-input=' + tr['cov'])
                     if st.get('expect') == 'error':
                         res.count('malformed-step')
                 res.count('steps=%d' % len(r['steps']))
@@ -160,6 +169,11 @@ def evaluate(ctx, cases, use_model=True, configs=('cy', 'py'), nproc=None):
         if len(rs) == 2 and not rs[0]['fails'] and not rs[1]['fails']:
             s0 = [{k: v for k, v in s.items() if k != 'tag'} for s in rs[0]['steps']]
             s1 = [{k: v for k, v in s.items() if k != 'tag'} for s in rs[1]['steps']]
+            # after the first factorization (LAPACK output, then kernel-specific summation order) value-dependent
+            # structure (rank above a cutoff, purged blocks) may differ in the last bit: compare up to that step
+            kf = [k for k, s in enumerate(s0) if s['op'] in FACT_OPS]
+            if kf:
+                s0, s1 = s0[:kf[0] + 1], s1[:kf[0] + 1]
             if s0 != s1:
                 res.fail('correspondence', 'c02.kernels-diverge', first_diff(s0, s1, 'steps'), case)
     return res
